@@ -123,7 +123,44 @@ def twin_nodes(c2profile, nodes):
     return [conv(n) for n in nodes]
 
 
+SIBLINGS = {"transform-x86": "transform-x64", "transform-x64": "transform-x86", "client": "server"}
+
+
+def add_shared_siblings(nodes):
+    """Duplicate some nested blocks under their sibling name (transform-x86/x64, http-stager client/server): the builder
+    twin then attaches ONE block object in both places, as a user re-using a block would."""
+
+    def walk(n, parent):
+        if n[0] != "block":
+            return n
+        children = [walk(c, n[1]) for c in n[3]]
+        extra = []
+        for c in children:
+            if c[0] == "block" and c[1] in SIBLINGS and (c[1] != "client" or n[1] == "http-stager"):
+                sib = SIBLINGS[c[1]]
+                if not any(x[0] == "block" and x[1] == sib for x in children):
+                    extra.append(["block", sib, None, c[3]])
+                    break
+        return ["block", n[1], n[2], children + extra]
+
+    return [walk(n, None) for n in nodes]
+
+
+_BLOCK_CACHE = {}
+
+
 def build_block(c2profile, clsname, specname, children, use_kwargs, as_str):
+    from .. import jsonx
+
+    key = (clsname, specname, jsonx.dumps(children), use_kwargs, as_str)
+    if specname in ("stage_transform", "http_options") and key in _BLOCK_CACHE:
+        return _BLOCK_CACHE[key]  # the very same object is attached a second time
+    blk = _build_block(c2profile, clsname, specname, children, use_kwargs, as_str)
+    _BLOCK_CACHE[key] = blk
+    return blk
+
+
+def _build_block(c2profile, clsname, specname, children, use_kwargs, as_str):
     cls = getattr(c2profile, clsname)
     specs = {(s[0], s[1]): s for s in PL.BLOCKS[specname]}
 
@@ -194,13 +231,14 @@ def twin_ast():
 
 
 def twin_strategy():
-    return st.fixed_dictionaries({"ast": twin_ast(), "use_kwargs": st.booleans(), "as_str": st.booleans()})
+    return st.fixed_dictionaries({"ast": twin_ast(), "use_kwargs": st.booleans(), "as_str": st.booleans(), "share": st.booleans()})
 
 
 def twin_execute(case, stats):
     from dissect.cobaltstrike import c2profile
 
-    nodes = case["ast"]
+    nodes = add_shared_siblings(case["ast"]) if case.get("share", True) else case["ast"]
+    _BLOCK_CACHE.clear()
     built = build_profile(c2profile, nodes, case["use_kwargs"], case["as_str"])
     text_nodes = twin_nodes(c2profile, nodes)
     source = PL.render(text_nodes)
@@ -214,7 +252,7 @@ def twin_execute(case, stats):
     bd = as_dict_of(built)
     eq(bd, as_dict_of(parsed), "twin:dict_differs", "as_dict of builder twin vs parsed")
     compare_model(bd, text_nodes, what="builder twin")
-    stats.note(case, G.has_nested_block(nodes), classes=["kwargs" if case["use_kwargs"] else "methods", "statements_%s" % ("0-2" if G.count_statements(nodes) < 3 else "3+")])
+    stats.note(case, G.has_nested_block(nodes), classes=["shared_block_object" if nodes != case["ast"] else "fresh_blocks", "kwargs" if case["use_kwargs"] else "methods", "statements_%s" % ("0-2" if G.count_statements(nodes) < 3 else "3+")])
 
 
 # ------------------------------------------------------------------------------------------ stateful: modifications vs view
